@@ -146,8 +146,12 @@ def parse_unit(path):
         elif d == "@closure":
             cur.closures[int(arg)], i = block(i)
         elif d == "@hint":
-            a, b, i = block2(i)
-            cur.hints.append((arg or "after", a, b))
+            if arg == "entry":
+                b, i = block(i)
+                cur.hints.append(("entry", "", b))
+            else:
+                a, b, i = block2(i)
+                cur.hints.append((arg or "after", a, b))
         elif d == "@subst":
             a, b, i = block2(i)
             cur.substs.append((a, b))
@@ -400,7 +404,11 @@ def build_fn(u, fs, log):
         ins.append((a, "replace_to:%d" % b, text + " "))
         log.append({"rule": "R10", "fn": fs.path, "closure": n})
     lost = []
+    entry_hints = ""
     for where, anchor, text in fs.hints:
+        if where == "entry":
+            entry_hints += "\n" + text + "\n"
+            continue
         hits = find_anchor(btoks, anchor)
         if not hits:
             lost.append(anchor)
@@ -423,7 +431,7 @@ def build_fn(u, fs, log):
         fn_text = "%s    #[verifier::external_body]\n    %s%s    { unimplemented!() }\n" % (attrs, sig_text, spec)
         log.append({"rule": "nobody", "fn": fs.path})
     else:
-        fn_text = "%s    %s%s    {%s%s}\n" % (attrs, sig_text, spec, entry, body)
+        fn_text = "%s    %s%s    {%s%s%s}\n" % (attrs, sig_text, spec, entry, entry_hints, body)
     # container
     own = None
     if cont is not None:
@@ -460,7 +468,7 @@ def build_type(u, path, opts, log):
     if "no-derives" in opts:
         derives = []
     if "derive=" in opts:
-        derives = [d for d in re.search(r"derive=(\S+)", opts).group(1).split(",") if d]
+        derives = [d for d in re.search(r"derive=(\S*)", opts).group(1).split(",") if d]
     toks = [t for t in it.toks[it.start:it.end] if t.kind != "doc"]
     # drop field attributes like #[serde(...)]
     text = rules.drop_attributes(toks)
@@ -487,6 +495,7 @@ use vstd::std_specs::ops::*;
 use vstd::std_specs::cmp::*;
 use vstd::std_specs::convert::*;
 verus! {
+global size_of usize == 8;
 """
 FOOTER = """
 } // verus!
